@@ -119,7 +119,11 @@ func Harness_C13_AlsoKnownAs() {
 	for i := 0; i < n; i++ {
 		tag := string(rune('a' + i))
 		var u string
-		switch verifrt.Choose("uri-"+tag, 4) {
+		switch verifrt.Choose("uri-"+tag, 6) {
+		case 4: // a valid URI that is not in the form url.URL.String() would print (upper-case scheme)
+			u = "HTTPS://abc.example/p"
+		case 5: // ... (empty fragment)
+			u = "https://abc.example/profile#"
 		case 3: // an entry that is not a string
 			uris = append(uris, 7.0)
 			want = false
